@@ -121,6 +121,130 @@ theorem replay_append {S : Type} (k : S) (a b : List S) : replay k (a ++ b) = re
   simp [replay, List.foldl_append]
 
 
+/-! ### callbacks -/
+
+theorem runCallbacks_of_caught (caught : CbOutcome → Bool) (h : ∀ oc, caught oc = true) (cbs : List CbOutcome) :
+    runCallbacks caught cbs = true := by
+  induction cbs with
+  | nil => rfl
+  | cons oc rest ih => simp [runCallbacks, h oc, ih]
+
+/-- when the `except` clause catches every outcome, callbacks do not influence entry and message -/
+theorem announceC_eq (o : Oracle V E) (caught : CbOutcome → Bool) (h : ∀ oc, caught oc = true) (e : Entry V E)
+    (now : Int) (r : VE V E) (cbs : List CbOutcome) : announceC o caught e now r cbs = announceR o e now r := by
+  unfold announceC announceR
+  simp [runCallbacks_of_caught caught h cbs]
+
+theorem runC_eq (o : Oracle V E) (caught : CbOutcome → Bool) (h : ∀ oc, caught oc = true) (e : Entry V E)
+    (xs : List (CEv V E)) : runC o caught e xs = runR o e (xs.map CEv.plain) := by
+  induction xs generalizing e with
+  | nil => rfl
+  | cons x xs ih => simp [runC, runR, announceC_eq o caught h, ih, CEv.plain]
+
+/-! ### callbacks that call the funnel of other parameters: every parameter sees a sequential history -/
+
+/-- the call of the funnel of parameter `q` that one callback of a call on `p` makes -/
+def nestedEvs (q p : Nat) : Option (Nested V E) → List (REv V E)
+  | none => []
+  | some n => if n.q = p then [] else if n.q = q then [⟨n.now, n.r⟩] else []
+
+@[simp] theorem projM_nil (q : Nat) : projM q ([] : List (Nat × Msg V E)) = [] := rfl
+theorem projM_append (q : Nat) (a b : List (Nat × Msg V E)) : projM q (a ++ b) = projM q a ++ projM q b := by
+  simp [projM, List.filter_append]
+
+theorem setE_same (es : Nat → Entry V E) (p : Nat) (e : Entry V E) : setE es p e p = e := by simp [setE]
+theorem setE_other (es : Nat → Entry V E) (p q : Nat) (e : Entry V E) (h : q ≠ p) : setE es p e q = es q := by
+  simp [setE, h]
+
+theorem nestedCall_proj (o : Oracle V E) (caught : CbOutcome → Bool) (hc : ∀ oc, caught oc = true) (p q : Nat)
+    (es : Nat → Entry V E) (n : Option (Nested V E)) :
+    (nestedCall o caught p es n).1 q = (runR o (es q) (nestedEvs q p n)).entry ∧
+    projM q (nestedCall o caught p es n).2 = (runR o (es q) (nestedEvs q p n)).msgs := by
+  cases n with
+  | none => simp [nestedCall, nestedEvs, runR]
+  | some n =>
+    unfold nestedCall nestedEvs
+    by_cases h1 : n.q = p
+    · simp [h1, runR]
+    · by_cases h2 : n.q = q
+      · subst h2
+        simp only [h1, if_false, if_true, setE_same, runR, announceC_eq o caught hc, List.append_nil]
+        refine ⟨trivial, ?_⟩
+        cases (announceR o (es n.q) n.now n.r).msg <;> simp [projM]
+      · simp only [h1, h2, if_false, runR]
+        refine ⟨setE_other _ _ _ _ (fun h => h2 h.symm), ?_⟩
+        have : (n.q == q) = false := by simpa using h2
+        cases (announceC o caught (es n.q) n.now n.r n.cbs).msg <;> simp [projM, this]
+
+theorem runCbs_proj (o : Oracle V E) (caught : CbOutcome → Bool) (hc : ∀ oc, caught oc = true) (p q : Nat)
+    (es : Nat → Entry V E) (cbs : List (Cb V E)) :
+    (runCbs o caught p es cbs).es q = (runR o (es q) (cbs.flatMap (fun cb => nestedEvs q p cb.nested))).entry ∧
+    projM q (runCbs o caught p es cbs).msgs = (runR o (es q) (cbs.flatMap (fun cb => nestedEvs q p cb.nested))).msgs ∧
+    (runCbs o caught p es cbs).completed = true := by
+  induction cbs generalizing es with
+  | nil => simp [runCbs, runR]
+  | cons cb rest ih =>
+    obtain ⟨h1, h2⟩ := nestedCall_proj o caught hc p q es cb.nested
+    obtain ⟨i1, i2, i3⟩ := ih (nestedCall o caught p es cb.nested).1
+    simp only [runCbs, hc cb.oc, if_true, List.flatMap_cons, runR_append, projM_append]
+    rw [h1] at i1 i2
+    exact ⟨i1, by rw [h2, i2], i3⟩
+
+/-- the calls of the funnel of parameter `q` caused by one top-level call on `p` -/
+def evsM (o : Oracle V E) (es : Nat → Entry V E) (q p : Nat) (now : Int) (r : VE V E) (cbs : List (Cb V E)) :
+    List (REv V E) :=
+  if q = p then [⟨now, r⟩]
+  else if emits o (es p) now r then cbs.flatMap (fun cb => nestedEvs q p cb.nested) else []
+
+theorem nestedEvs_self (p : Nat) (n : Option (Nested V E)) : nestedEvs p p n = ([] : List (REv V E)) := by
+  cases n with
+  | none => rfl
+  | some n => unfold nestedEvs; by_cases h : n.q = p <;> simp [h]
+
+theorem announceM_proj (o : Oracle V E) (caught : CbOutcome → Bool) (hc : ∀ oc, caught oc = true) (q p : Nat)
+    (es : Nat → Entry V E) (now : Int) (r : VE V E) (cbs : List (Cb V E)) :
+    (announceM o caught es p now r cbs).es q = (runR o (es q) (evsM o es q p now r cbs)).entry ∧
+    projM q (announceM o caught es p now r cbs).msgs = (runR o (es q) (evsM o es q p now r cbs)).msgs := by
+  unfold announceM evsM
+  by_cases hem : emits o (es p) now r = true
+  · simp only [hem, if_true]
+    obtain ⟨c1, c2, c3⟩ := runCbs_proj o caught hc p q (setE es p (commit (storeValue (es p) r) now r)) cbs
+    by_cases hq : q = p
+    · subst hq
+      have hnil : cbs.flatMap (fun cb => nestedEvs q q cb.nested) = ([] : List (REv V E)) := by
+        induction cbs with
+        | nil => rfl
+        | cons cb rest ih => simp [List.flatMap_cons, nestedEvs_self, ih]
+      rw [hnil] at c1 c2
+      simp only [runR, setE_same] at c1 c2
+      simp only [if_true, c3, projM_append, c2, runR, announceR_go o (es q) now r hem, c1]
+      simp [projM]
+    · have hqp : (p == q) = false := by simpa using (fun h => hq h.symm)
+      rw [setE_other _ _ _ _ hq] at c1 c2
+      simp only [hq, if_false, c3, if_true, projM_append, c1, c2]
+      simp [projM, hqp]
+  · simp only [hem, if_false, Bool.false_eq_true]
+    by_cases hq : q = p
+    · subst hq
+      have hd : emits o (es q) now r = false := by simpa using hem
+      simp [setE_same, runR, announceR_skip o (es q) now r hd]
+    · simp [hq, setE_other _ _ _ _ hq, runR]
+
+/-- every parameter's entry and message stream after a history of calls with re-entering callbacks are those of
+a sequential history of calls of its own funnel -/
+theorem runM_proj (o : Oracle V E) (caught : CbOutcome → Bool) (hc : ∀ oc, caught oc = true) (q : Nat)
+    (es : Nat → Entry V E) (xs : List (MEv V E)) :
+    ∃ evs, (runM o caught es xs).es q = (runR o (es q) evs).entry ∧
+      projM q (runM o caught es xs).msgs = (runR o (es q) evs).msgs := by
+  induction xs generalizing es with
+  | nil => exact ⟨[], by simp [runM, runR]⟩
+  | cons x xs ih =>
+    obtain ⟨a1, a2⟩ := announceM_proj o caught hc q x.p es x.now x.r x.cbs
+    obtain ⟨evs, i1, i2⟩ := ih (announceM o caught es x.p x.now x.r x.cbs).es
+    refine ⟨evsM o es q x.p x.now x.r x.cbs ++ evs, ?_, ?_⟩
+    · simp only [runM, runR_append]; rw [i1, a1]
+    · simp only [runM, runR_append, projM_append]; rw [i2, a1, a2]
+
 /-- replaying the messages of a run gives the final entry's value-or-error -/
 theorem replay_runR (o : Oracle V E) (ex : V → X) (h : ExportExact o ex) (e : Entry V E) (xs : List (REv V E)) :
     replay (e.ve.map ex) ((runR o e xs).msgs.map (fun m => m.ve.map ex)) = (runR o e xs).entry.ve.map ex := by
